@@ -6,8 +6,8 @@ CONSTANTS
   Needs = {15, 14}
   WordMax = 15
   WrapCheck = FALSE
-  MaxFields = 4
-  Depth = 9
+  MaxFields = 3
+  Depth = 10
 SPECIFICATION GSpec
 CONSTRAINT Emit
 CHECK_DEADLOCK FALSE
